@@ -656,6 +656,11 @@ func (m *Machine) OpNewAccount(t *rapid.T, fate Fate) {
 		if num != s.LastAcct+1 {
 			m.Violation("NewAccount returned number %d, expected %d", num, s.LastAcct+1)
 		}
+		if !committed {
+			// the number stays free: the next account of this scope, of
+			// whatever kind, gets it
+			m.rolledBackAcctScope = s
+		}
 		if committed {
 			k, kerr := s.Keys.AccountLater(num)
 			if kerr != nil {
@@ -671,6 +676,11 @@ func (m *Machine) OpNewAccount(t *rapid.T, fate Fate) {
 // OpNewWatchOnlyAccount imports an extended public key derived from the second seed.
 func (m *Machine) OpNewWatchOnlyAccount(t *rapid.T, fate Fate) {
 	s := m.drawScope(t)
+	if m.rolledBackAcctScope != nil && rapid.Bool().Draw(t, "reuseRolledBackNumber") {
+		// take the number a rolled-back account creation left behind
+		s = m.rolledBackAcctScope
+	}
+	m.rolledBackAcctScope = nil
 	name := "w" + rapid.StringMatching(`[a-z]{1,5}`).Draw(t, "acctName")
 	for _, a := range s.Accounts {
 		if a.Name == name {
